@@ -33,6 +33,7 @@ type PropSpec struct {
 	Outside     []string      `json:"outside"`
 	TimeoutMs   int           `json:"solver_timeout_ms,omitempty"`
 	Precise     string        `json:"precise_solver,omitempty"`
+	CexPerLabel int           `json:"cex_per_label,omitempty"`
 }
 
 type KnownFinding struct {
@@ -97,6 +98,9 @@ func cmdCheck(args []string) int {
 	if err != nil {
 		fmt.Println("INCONCLUSIVE", err)
 		return 2
+	}
+	if spec.CexPerLabel > 0 {
+		cexPerLabel = spec.CexPerLabel
 	}
 	if spec.Precise != "" && os.Getenv("VERIF_SOLVER") == "" {
 		preciseBin = spec.Precise
@@ -188,50 +192,74 @@ func cmdCheck(args []string) int {
 			ev.Inconclusive = append(ev.Inconclusive, msg)
 			rc = max(rc, 2)
 		}
-		// distinct violated (harness,label) pairs: replay the first counterexample of each
-		seen := map[string]bool{}
-		replays := 0
+		// distinct violated (harness,label) pairs: replay counterexamples of each until one reproduces
+		byLabel := map[string][]AssertRes{}
+		var order []string
 		for _, v := range hr.Violations {
-			if seen[v.Label] || v.Cex == nil {
+			if v.Cex == nil {
 				continue
 			}
-			seen[v.Label] = true
+			if _, ok := byLabel[v.Label]; !ok {
+				order = append(order, v.Label)
+			}
+			byLabel[v.Label] = append(byLabel[v.Label], v)
+		}
+		replays := 0
+		for _, label := range order {
 			if replays >= 3 && rc == 1 {
-				fmt.Printf("  also violated (not replayed, a violation of this harness already reproduced): harness=%s assertion=%q\n", h.Func, v.Label)
+				fmt.Printf("  also violated (not replayed, a violation of this harness already reproduced): harness=%s assertion=%q\n", h.Func, label)
 				continue
 			}
 			replays++
-			cexN++
-			v.Cex.Property = id
-			v.Cex.Pkg = h.Pkg
-			path := filepath.Join(outDir, fmt.Sprintf("cex-%d.json", cexN))
-			b, _ := json.MarshalIndent(v.Cex, "", " ")
-			os.WriteFile(path, b, 0o644)
 			var kf *KnownFinding
 			for i := range known.Findings {
 				k := &known.Findings[i]
-				if k.Property == id && k.Harness == h.Func && k.Label == v.Label {
+				if k.Property == id && k.Harness == h.Func && k.Label == label {
 					kf = k
 				}
 			}
-			if *noReplay {
-				fmt.Printf("CEX (not replayed) property=%s harness=%s label=%q file=%s\n", id, h.Func, v.Label, path)
-				rc = max(rc, 2)
-				continue
+			status, detail, path := "not-reproduced", "", ""
+			cands := byLabel[label]
+			// schedule counterexamples: try first those in which a thread resumes from its
+			// controllable yield point as late as possible (the others have progressed furthest) -
+			// these are the interleavings the native scheduler can enforce
+			sort.SliceStable(cands, func(a, b int) bool { return schedScore(cands[a].Cex) > schedScore(cands[b].Cex) })
+			for _, v := range cands {
+				cexN++
+				v.Cex.Property = id
+				v.Cex.Pkg = h.Pkg
+				path = filepath.Join(outDir, fmt.Sprintf("cex-%d.json", cexN))
+				b, _ := json.MarshalIndent(v.Cex, "", " ")
+				os.WriteFile(path, b, 0o644)
+				if *noReplay {
+					status = "not-replayed"
+					break
+				}
+				status, detail = replayCex(path)
+				ev.Replays = append(ev.Replays, map[string]string{"harness": h.Func, "label": label, "status": status, "file": path})
+				if status == "reproduced" {
+					break
+				}
 			}
-			status, detail := replayCex(path)
-			ev.Replays = append(ev.Replays, map[string]string{"harness": h.Func, "label": v.Label, "status": status, "file": path})
 			switch {
+			case status == "not-replayed":
+				fmt.Printf("CEX (not replayed) property=%s harness=%s label=%q file=%s\n", id, h.Func, label, path)
+				rc = max(rc, 2)
 			case status == "reproduced" && kf != nil:
-				fmt.Printf("KNOWN-FINDING: property=%s %s [harness=%s label=%q replay=%s]\n", id, kf.What, h.Func, v.Label, path)
+				fmt.Printf("KNOWN-FINDING: property=%s %s [harness=%s label=%q replay=%s]\n", id, kf.What, h.Func, label, path)
 				ev.Known = append(ev.Known, kf.What)
+			case kf != nil:
+				// a listed finding the solver re-derived; this run's models did not reproduce natively
+				// (for schedule findings the native scheduler cannot enforce every interleaving)
+				fmt.Printf("KNOWN-FINDING: property=%s %s [harness=%s label=%q solver-found; native replay of this run's models: %s]\n", id, kf.What, h.Func, label, status)
+				ev.Known = append(ev.Known, kf.What+" (not replayed natively in this run)")
 			case status == "reproduced":
 				fmt.Printf("VIOLATION property=%s replay=%s\n", id, path)
-				fmt.Printf("  harness=%s assertion=%q (reproduced natively against the real code)\n", h.Func, v.Label)
+				fmt.Printf("  harness=%s assertion=%q (reproduced natively against the real code)\n", h.Func, label)
 				violations++
 				rc = 1
 			default:
-				msg := fmt.Sprintf("%s: solver model for %q did not reproduce natively (%s): encoding/model mismatch, not reported as a violation. %s", h.Func, v.Label, status, detail)
+				msg := fmt.Sprintf("%s: solver model for %q did not reproduce natively (%s): encoding/model mismatch, not reported as a violation. %s", h.Func, label, status, detail)
 				fmt.Println("INCONCLUSIVE: " + msg)
 				ev.Inconclusive = append(ev.Inconclusive, msg)
 				if rc != 1 {
@@ -431,6 +459,22 @@ func TestVerifReplay(t *testing.T) {
 		tail = tail[len(tail)-1500:]
 	}
 	return "error", fmt.Sprintf("replay did not report (err=%v): %s", err, tail)
+}
+
+// schedScore: index of the first step that resumes a thread from zz.Yield (-1 if none / no schedule).
+func schedScore(c *Cex) int {
+	if c == nil {
+		return -1
+	}
+	for k := 0; ; k++ {
+		v, ok := c.Values[fmt.Sprintf("$schedkind#%d", k)]
+		if !ok {
+			return -1
+		}
+		if s, _ := v.(string); s == "yield" {
+			return k
+		}
+	}
 }
 
 func pkgNameOf(rel string) (string, error) {
